@@ -120,6 +120,29 @@ def execute(case):
                 return SBase.updated(self, ent, side, key, val)
 
         EventManager._provider_guard.clear()
+        holder = {}
+
+        class TracedStorage(MockStorage):
+            """rows of the sync state's own tag are part of the shared state: written only by a thread that owns the lock
+            (cursor / walk marker rows belong to one event manager and are left out)"""
+            def _obs(self, op, tag):
+                st = holder.get("state")
+                if st is not None and tag == st._tag:
+                    fr = traceback.extract_stack(limit=6)
+                    note("storage." + op + "<" + ">".join(f.name for f in fr[:-2])[-80:], "storage-row", 1 if st.lock._is_owned() else 0)
+
+            def create(self, tag, serialization):
+                self._obs("create", tag)
+                return MockStorage.create(self, tag, serialization)
+
+            def update(self, tag, serialization, eid):
+                self._obs("update", tag)
+                return MockStorage.update(self, tag, serialization, eid)
+
+            def delete(self, tag, eid):
+                self._obs("delete", tag)
+                return MockStorage.delete(self, tag, eid)
+
         from cloudsync.sync.manager import SyncManager
         import cloudsync.smartsync as ssm
         MBase = ssm.SmartSyncManager if smart else SyncManager
@@ -142,11 +165,12 @@ def execute(case):
                         return SmartCloudSync._smart_sync_ent(self, ent)
 
             cs = TracedSmartCS.__new__(TracedSmartCS)
-            CloudSync.__init__(cs, tuple(eng), roots, MockStorage({}), sleep=None, state_class=TracedState,
+            CloudSync.__init__(cs, tuple(eng), roots, TracedStorage({}), sleep=None, state_class=TracedState,
                                smgr_class=TracedSmgr, emgr_class=TracedEmgr)
         else:
-            cs = CloudSync(tuple(eng), roots, MockStorage({}), sleep=None, state_class=TracedState,
+            cs = CloudSync(tuple(eng), roots, TracedStorage({}), sleep=None, state_class=TracedState,
                            smgr_class=TracedSmgr, emgr_class=TracedEmgr)
+        holder["state"] = cs.state
         events = []
 
         def tree(side):
